@@ -56,6 +56,14 @@ def run(ctx):
     # accessors of the thread-local keys
     n_access = 0
     confined = {mir.norm(k["path"]): True for k in keys}
+    try:
+        scoped, unpaired = extent_scoped_keys(ctx, fb)
+    except Exception:
+        scoped, unpaired = {}, []
+    for F_, st_, path_ in unpaired:
+        ctx.report("C19-global-census", "escape/%s/unrestored" % F_.name, "%s overwrites a thread-local shared by all interpreter instances and "
+                   "can return without putting the old value back (through blocks %s): what one instance was doing when it failed is left "
+                   "behind for every other instance on the thread" % (F_.name, path_[:8]), where_of(F_, st_))
     for f in fb.all("lib") + fb.all("bin"):
         for b, t in f.calls():
             c = callee(t) or ""
@@ -66,6 +74,11 @@ def run(ctx):
             kty = t["argtys"][0] if t.get("argtys") else "?"
             owner = f.name
             ctx.inst("C19-global-census", "access/%s/%s" % (owner, meth), {"key_type": kty})
+            if scoped.get(_key_of(f, t)) == "extent-scoped":
+                # every write is a save that is put back on every way out of the function that made it: outside that extent the
+                # cell holds what it always held
+                ctx.inst("C19-global-census", "confinement/%s" % owner, {"extent_scoped": True})
+                continue
             if meth not in ("with", "try_with"):
                 ctx.report("C19-global-census", "access/%s/%s" % (owner, meth), "%s %ss a thread-local (%s): shared state is "
                            "replaced/written" % (owner, meth, kty), where_of(f, t))
@@ -264,6 +277,138 @@ def run(ctx):
         if f.name in (ITP + "file_library_factory",):
             continue
     return EXPLANATION, NOT_DECIDED
+
+
+CELL_OPS = ("borrow", "borrow_mut", "replace", "set", "swap", "take", "replace_with", "get_mut", "into_inner", "try_borrow", "try_borrow_mut")
+WRAPPERS = ("std::option::Option::map", "std::option::Option::and_then", "std::option::Option::map_or", "std::result::Result::map")
+
+
+def _key_of(f, t):
+    c = mir.trace_const(f, t["args"][0]) if t.get("args") else None
+    if c is None:
+        return None
+    pb = c.get("promoted_body")
+    if pb:
+        # `&KEY` is a promoted constant of the accessing function: the key is the static it refers to
+        for blk in pb.get("blocks", []):
+            for st in blk.get("stmts", []):
+                rv = st.get("rv") or {}
+                op = rv.get("op") if rv.get("k") == "use" else None
+                if op and op.get("k") == "const" and (op["c"].get("uneval") or op["c"].get("text")):
+                    return str(op["c"].get("uneval") or op["c"].get("text"))
+    return str(c.get("def") or c.get("uneval") or c.get("text") or c.get("val") or "") or None
+
+
+def extent_scoped_keys(ctx, fb):
+    """Thread-local cells every write of which is one half of a save / restore pair inside one function: the old value is taken out
+    when the new one is put in (`cell.replace(new)`), and on every way out of the function it is put back.  Outside such an extent
+    the cell holds what it held before, so nothing done through one interpreter is left for another to see.  Returns
+    ({key: 'extent-scoped'}, [(function, site, path)] of saves that are not put back on some way out)."""
+    acc = {}
+    for f in fb.all("lib") + fb.all("bin"):
+        for b, t in f.calls():
+            c = callee(t) or ""
+            if not c.startswith("std::thread::LocalKey::"):
+                continue
+            k = _key_of(f, t)
+            if k is None:
+                return {}, []
+            acc.setdefault(k, []).append((f, b, t, c.rsplit("::", 1)[-1]))
+    scoped, unpaired = {}, []
+    for k, sites in acc.items():
+        writers, analysable = [], True
+        for f, b, t, meth in sites:
+            if meth not in ("with", "try_with"):
+                analysable = False
+                break
+            clo = mir.trace_aggregate(f, t["args"][1])
+            cf = fb.by_path(mir.norm(clo["kind"]["def"]), f.crate) if clo and clo["kind"]["k"] == "closure" else None
+            if cf is None:
+                analysable = False
+                break
+            p = Prov(cf)
+            shared = {l for l in range(len(cf.locals)) if ("arg", 2) in p.roots(l)}
+            ops = []
+            for bb, tt in cf.calls():
+                cc = callee(tt) or ""
+                if any(mir.op_local(a) in shared for a in tt["args"]) and "RefCell" in cc:
+                    ops.append((cc.rsplit("::", 1)[-1], bb, tt))
+            names = {o[0] for o in ops}
+            if not names or names <= {"borrow", "try_borrow"}:
+                continue                                            # a reader
+            if names != {"replace"} or len(ops) != 1:
+                analysable = False
+                break
+            # the closure hands the old value back
+            if ("call", ops[0][1], callee(ops[0][2])) not in p.roots(0):
+                analysable = False
+                break
+            writers.append((f, b, t, clo))
+        if not analysable or not writers:
+            continue
+        # host function and site of every writer: the function itself, or — when the access sits in a closure handed to
+        # Option::map / and_then — the function that makes that call
+        hosted = []
+        for f, b, t, clo in writers:
+            if "::{closure" in f.name:
+                parent = fb.by_path(f.name.rsplit("::{closure", 1)[0], f.crate)
+                site = None
+                if parent is not None:
+                    for pb, pt in parent.calls():
+                        if callee(pt) in WRAPPERS and len(pt["args"]) > 1:
+                            ag = mir.trace_aggregate(parent, pt["args"][1])
+                            if ag and ag["kind"]["k"] == "closure" and mir.norm(ag["kind"]["def"]) == f.name:
+                                site = (parent, pb, pt, ag, True)
+                if site is None:
+                    hosted = None
+                    break
+                hosted.append(site)
+            else:
+                hosted.append((f, b, t, clo, False))
+        if not hosted:
+            continue
+        ok_key = True
+        by_host = {}
+        for h in hosted:
+            by_host.setdefault(h[0].name, []).append(h)
+        for hname, hs in by_host.items():
+            F = hs[0][0]
+            pf = Prov(F)
+            site_calls = {(hb, callee(ht)) for (_, hb, ht, _, _) in hs}
+            saves, restores = [], []
+            for (_, hb, ht, ag, wrapped) in hs:
+                written_roots = set()
+                for o in ag["ops"]:
+                    written_roots |= {(r[1], r[2]) for r in pf.op_roots(o) if r[0] == "call"}
+                src = [sc for sc in site_calls if sc in written_roots and sc[0] != hb]
+                (restores if src else saves).append((hb, ht, wrapped, src))
+            for (sb, st, wrapped, _) in saves:
+                mine = [rb for (rb, rt, rw, src) in restores if (sb, callee(st)) in src]
+                none_exits = set()
+                if wrapped:
+                    res_local = st["dest"]["local"]
+                    for xb, blk in enumerate(F.blocks):
+                        tm = blk["term"]
+                        if tm["k"] != "switch":
+                            continue
+                        dl = mir.op_local(tm["discr"])
+                        ds = mir.defs_of(F).get(dl, []) if dl is not None else []
+                        if len(ds) == 1 and ds[0][0] == "stmt" and ds[0][3]["rv"]["k"] == "discriminant" and \
+                                ds[0][3]["rv"]["place"]["local"] == res_local and not ds[0][3]["rv"]["place"]["proj"]:
+                            vals_ = [v for v, _ in tm["targets"]]
+                            for v, x in tm["targets"]:
+                                if v == 0:
+                                    none_exits.add(x)               # the save did not happen on this edge
+                            if 0 not in vals_ and 1 in vals_:
+                                none_exits.add(tm["otherwise"])     # (`if let Some(..)`: everything but Some)
+                path = mir.paths_avoiding(F, st["target"], [r for r in F.return_blocks() if not F.blocks[r]["cleanup"]], set(mine) | none_exits) \
+                    if st.get("target") is not None else None
+                if path is not None:
+                    ok_key = False
+                    unpaired.append((F, st, path))
+        if ok_key:
+            scoped[k] = "extent-scoped"
+    return scoped, unpaired
 
 
 RESETS = ("std::string::String::clear", "std::vec::Vec::clear", "Vec<T, A>::clear", "std::collections::HashMap::clear",
